@@ -17,6 +17,7 @@ from sa.pyfront import Program
 from sa.symex import Interp
 
 RULES = {
+    "R-C13-h": "product / calculate derive the sub-cubes from the dimensions at every call and keep nothing on the cube between calls (frame analysis shared with C17)",
     "R-C13-g": "the grand total in the corner of every sub-cube's regions is the all-rows instance of the per-cell value: it depends on the rows only, not on the extra axes of the dimension it is read from",
     "R-C13-f": "each sub-cube writes exactly its own block: inside a task every region is addressed through region[tuple(its own coordinates)], and the unsliced region is used only when there is a single task (imported from the C16 analysis)",
     "R-C13-a": "result shape = <extra axes of each dimension, in dims order then axis order> ++ <one category extent per dimension> ++ <fact columns>, for the attributes that flow into returned arrays",
@@ -425,6 +426,20 @@ def main(tier):
     for rule, status, where, cons, detail, wit in CG.items:
         rep.add(rule, where, cons, status, detail, True, wit if status != "VIOLATED" else {"inputs": "ccube([<index with extra axes>, ...]).count(): the all-common cell of every block is too large by rows x (extra extents - 1)"})
     rep.floor("R-C13-g", 30, ng)
+    # R-C13-h: the list of sub-cubes is derived from the dimensions' CURRENT state at every evaluation: product / calculate
+    # keep nothing on the cube between calls (a cached product pairs stale snapshots of a multi-axis index with the live
+    # 1-D dimensions after an in-place append / update) - the frame analysis of C17 for these roots
+    import c17
+    st17 = {"events": 0, "mods": 0, "diagnostic": {}, "exceptions": {}, "regions": 0, "shortcuts": 0}
+    k17 = 0
+    for module, cls in (("ccubes", "ccube"), ("xcubes", "xcube")):
+        ci = prog.cls(module, cls)
+        for nm in ("product", "calculate"):
+            f17 = ci.methods.get(nm)
+            if f17 is not None:
+                c17.analyse_root(prog, f17, "cube", rep, st17, RA="R-C13-h", RB="R-C13-h", extra=False)
+                k17 += 1
+    rep.floor("R-C13-h", 3, k17)
     return rep.finish()
 
 
